@@ -88,6 +88,8 @@ class KeyWalkModel(Model):
         self.globals["c_hyperv"] = ObjV("c_hyperv")
         self.fields["c_hyperv.HyperVStorageKeyTable"] = ObjV("c_hyperv.HyperVStorageKeyTable")
         self.lens["c_hyperv.HyperVStorageKeyTable"] = IntV(z3.IntVal(len(c_hyperv.HyperVStorageKeyTable)))
+        self.fields["c_hyperv.HyperVStorageKeyTableEntryHeader"] = ObjV("c_hyperv.HyperVStorageKeyTableEntryHeader")
+        self.lens["c_hyperv.HyperVStorageKeyTableEntryHeader"] = IntV(z3.IntVal(len(c_hyperv.HyperVStorageKeyTableEntryHeader)))
         self.fields["self.entries"] = ObjV("self.entries")
         self.fields["self._lookup"] = ObjV("self._lookup")
         self.methods[("self.entries", "append")] = lambda eng, st, args, node: NoneV()
